@@ -238,3 +238,13 @@ def gen_preempt(r, tier="quick", offgrid=True):
     for k, p in enumerate(pipes):
         p["id"] = "p%d" % (k + 1)
     return {"kind": "sys", "cfg": cfg, "pipes": pipes}
+
+
+def gen_chaos(r, tier="quick"):
+    """full-loop scenario for the chaos custom scheduler"""
+    scn = gen(r, "naive", "chaos", tier, offgrid=True)
+    scn["cfg"]["algo"] = "chaos"
+    scn["cfg"]["over"] = r.random() < 0.35
+    scn["chaos"] = {"seed": r.randint(0, 10 ** 9), "p_sus": r.choice([0, 0.1, 0.5, 1.0]), "p_asg": r.choice([0.3, 0.7, 1.0]),
+                    "per_pool": r.choice([1, 2, 4]), "p_op": r.choice([0.5, 0.8, 1.0]), "retry": r.random() < 0.7}
+    return scn
